@@ -27,6 +27,8 @@ type Result struct {
 	Harness    string         `json:"harness,omitempty"`
 	SimDays    int            `json:"sim_days,omitempty"`
 	Points     int            `json:"crash_points,omitempty"`
+	// Workload: the stage that produced this result (set by the orchestrator)
+	Workload string `json:"workload,omitempty"`
 	// APIProblems: lock API requests that do not conform (judged by C18)
 	APIProblems []string `json:"api_problems,omitempty"`
 }
